@@ -33,7 +33,7 @@ Proof. exact PassProofs.find_rule_none_l. Qed.
 
 (* an accepted match never lies before the position and its three ranges are nested in order *)
 Theorem match_shape : forall inp r pos m, pass_test inp r pos = Some m ->
-  m_start m = pos /\ pos <= m_sr m /\ m_sr m <= m_er m /\ m_er m <= m_end m /\ m_end m <= len inp.
+  m_start m = pos /\ pos <= m_sr m /\ m_sr m <= m_er m /\ m_er m <= len inp /\ 0 <= m_end m <= len inp.
 Proof. exact PassProofs.match_shape_l. Qed.
 Print Assumptions match_shape.
 
